@@ -74,7 +74,7 @@ func BuildOverlay(repoDir, harnessDir string) (map[string][]byte, []string, erro
 }
 
 // SourcePkgs are dependencies executed from source rather than modelled.
-var SourcePkgs = []string{"github.com/pkg/errors", "bytes", "io", "encoding/binary"}
+var SourcePkgs = []string{"github.com/pkg/errors", "bytes", "io", "encoding/binary", "github.com/gin-gonic/gin"}
 
 func Load(repoDir, harnessDir string, extraPatterns ...string) (*Program, error) {
 	ov, hpk, err := BuildOverlay(repoDir, harnessDir)
@@ -142,7 +142,7 @@ func Load(repoDir, harnessDir string, extraPatterns ...string) (*Program, error)
 		P.Pkgs[p.Pkg.Path()] = p
 		P.TPkgs[p.Pkg.Path()] = p.Pkg
 	}
-	P.OpaquePkgs = []string{"github.com/rs/zerolog", RepoModule + "/metrics", "github.com/prometheus/", "log", "github.com/kr/pretty"}
+	P.OpaquePkgs = []string{"github.com/rs/zerolog", RepoModule + "/metrics", "github.com/prometheus/", "log", "github.com/kr/pretty", "github.com/centrifugal/", "github.com/swaggo/", "net/http/pprof", "github.com/dchest/uniuri"}
 	P.registerIntrinsics()
 	if err := P.loadSchema(); err != nil {
 		return nil, err
@@ -200,6 +200,9 @@ func (in *Interp) opaqueResult(fn *ssa.Function) value {
 			return &cell
 		}
 		if _, ok := t.Underlying().(*types.Interface); ok {
+			if types.Identical(t, types.Universe.Lookup("error").Type()) {
+				return iface{} // opaque calls succeed
+			}
 			return iface{t: in.synthType("opaque." + t.String()), v: &opaque{kind: t.String()}}
 		}
 		return in.zero(t)
